@@ -18,19 +18,24 @@ type c02EnvVar struct {
 }
 
 type c02G struct {
-	rng        *Rng
-	env        []c02EnvVar
-	usedFn     map[int]bool // function-typed variables already used (applied or passed): at most once
-	used       map[int]bool
-	needDet    []string // parameters compared with each other: get a type-determining use at the end
-	nvar       int
-	nid        int
-	nShadow    int
-	sigs       []*c02Sig // library + earlier user functions
-	pool       []*c02Ty  // types to draw let-bound values / instantiations from
-	allowGN    bool      // hazard stream: type arguments of generic records/unions may contain type variables
-	underscore bool      // "_" binders in destructuring lets
-	nrigid     int
+	rng     *Rng
+	env     []c02EnvVar
+	usedFn  map[int]bool // function-typed variables already used (applied or passed): at most once
+	used    map[int]bool
+	needDet []string // parameters compared with each other: get a type-determining use at the end
+	nvar    int
+	nid     int
+	nShadow int
+	// a bare reference to a GENERIC global (slice.Head as a value) is only generated directly as the argument
+	// for a parameter that the callee declares with a function type: fc never writes explicit instantiations,
+	// and Go can infer the instantiation of a generic function value only from such a parameter
+	bareOK       bool
+	nBareAvoided int
+	sigs         []*c02Sig // library + earlier user functions
+	pool         []*c02Ty  // types to draw let-bound values / instantiations from
+	allowGN      bool      // hazard stream: type arguments of generic records/unions may contain type variables
+	underscore   bool      // "_" binders in destructuring lets
+	nrigid       int
 }
 
 type c02State struct {
@@ -263,6 +268,8 @@ func (g *c02G) instMember(d *c02Decl, t *c02Ty, m *c02Ty) *c02Ty {
 // gen: an expression of type t. free = the position does not unify t with an expected type
 // (let right-hand side, final expression, tuple component thereof).
 func (g *c02G) gen(t *c02Ty, d int, free bool) *c02Exp {
+	bareOK := g.bareOK
+	g.bareOK = false
 	vars := g.varsOf(t)
 	if len(vars) > 0 && (d <= 0 || g.rng.Chance(45, 100)) {
 		return g.useVar(Choose(g.rng, vars))
@@ -300,6 +307,10 @@ func (g *c02G) gen(t *c02Ty, d int, free bool) *c02Exp {
 			}
 			m := map[int]*c02Ty{}
 			if !c02Match(pat, t, m) {
+				continue
+			}
+			if given == 0 && s.K > 0 && !bareOK {
+				g.nBareAvoided++
 				continue
 			}
 			w := 3
@@ -529,7 +540,9 @@ func (g *c02G) callGlobal(s *c02Sig, given int, m map[int]*c02Ty, d int) *c02Exp
 	}
 	var args []*c02Exp
 	for _, a := range s.Args[:given] {
+		g.bareOK = a.K == "fun"
 		x := g.gen(a.subst(bind), d-1, false)
+		g.bareOK = false
 		if x == nil {
 			return nil
 		}
@@ -919,7 +932,8 @@ func c02RandFunc(rng *Rng, name string, sigs []*c02Sig, hazardKind string) *c02F
 		}
 	}
 	return &c02Func{Name: name, Params: params, Body: body, Ret: ret,
-		Feats: map[string]int{"lambda_param_shadows_outer_name": g.nShadow, "comparison_between_two_parameters": len(g.needDet)}}
+		Feats: map[string]int{"lambda_param_shadows_outer_name": g.nShadow, "comparison_between_two_parameters": len(g.needDet),
+			"bare_generic_function_value_avoided": g.nBareAvoided}}
 }
 
 // ---------------------------------------------------------------- shapes: principal type by construction
